@@ -59,7 +59,7 @@ Definition entries : list entry :=
     {| e_pkg := "internal/ast"; e_func := "Walk"; e_kind := SKPanic; e_classes := [CInvariant closed_nodes] |};
     {| e_pkg := "parser"; e_func := "ParseProgram"; e_kind := SKRecover; e_classes := [CBoundary] |};
     {| e_pkg := "parser"; e_func := "ParseProgram"; e_kind := SKAssert;
-       e_classes := [CReachable "F-C17-1 / F-C17-2: a panic that is not a *ast.PositionError (reflect on a non-function or nil ParserConfig.Funcs value, or any class-(ii) panic) is re-raised by this unchecked assertion"] |};
+       e_classes := [CInvariant "only *ast.PositionError and class-(ii) panics are raised below ParseProgram: the resolver no longer reflects on non-function or nil Funcs values (C17_never_panics, C16_no_panic); a class-(ii) panic needs a failed invariant and is re-raised here"] |};
     {| e_pkg := "internal/resolver"; e_func := "*mainVisitor.Visit"; e_kind := SKIndex;
        e_classes := [CInvariant parser_shape; CInvariant parser_shape] |};
     {| e_pkg := "internal/resolver"; e_func := "*mainVisitor.Visit"; e_kind := SKAssert; e_classes := [CInvariant parser_shape] |};
@@ -89,10 +89,10 @@ Definition entries : list entry :=
     {| e_pkg := "interp"; e_func := "*interp.toNative"; e_kind := SKPanic;
        e_classes := [CInvariant native_checked; CInvariant native_checked] |};
     {| e_pkg := "interp"; e_func := "fromNative"; e_kind := SKPanic;
-       e_classes := [CReachable "F-C17-5: result of a user-defined byte-slice type"; CInvariant native_checked] |};
+       e_classes := [CInvariant native_checked; CInvariant native_checked] |};
     {| e_pkg := "interp"; e_func := "*interp.getSpecial"; e_kind := SKPanic; e_classes := [CInvariant verifier] |};
     {| e_pkg := "interp"; e_func := "*interp.setSpecial"; e_kind := SKMustCompile;
-       e_classes := [CReachable "F-C02-1: a one-byte RS that is not ASCII is not valid UTF-8 (C02_rs_one_byte_refuted)";
+       e_classes := [CGuarded "utf8.ValidString(RS) is tested first (C02_rs_one_byte_never_panics): a valid empty or one-byte string quoted by QuoteMeta is a valid pattern";
                      CGuarded "len > 1 and exactly one rune: a valid multi-byte rune, which QuoteMeta leaves a valid pattern"] |};
     {| e_pkg := "interp"; e_func := "*interp.setSpecial"; e_kind := SKPanic; e_classes := [CInvariant verifier] |};
     {| e_pkg := "interp"; e_func := "*interp.arrayIndex"; e_kind := SKIndex; e_classes := [CInvariant verifier] |};
@@ -183,8 +183,8 @@ Qed.
 Lemma entries_are_live : entries_live = true.
 Proof. vm_compute. reflexivity. Qed.
 
-(* exactly three sites are reachable; they are the known findings *)
-Lemma reachable_sites_are : map fst reachable_sites = ["ParseProgram"; "fromNative"; "*interp.setSpecial"].
+(* no site is reachable *)
+Lemma reachable_sites_are : reachable_sites = [].
 Proof. vm_compute. reflexivity. Qed.
 
 (* every recover() is an API boundary and every control-flow panic lives in a package below one *)
